@@ -94,6 +94,13 @@ def dispatchChords : String → List Val → Option Val
   | "chords.from_shorthand", [str x] => some (toVal (Chords.fromShorthand x))
   | "chords.from_shorthand_list", [list xs] => some (toVal ((strList xs).mapM Chords.fromShorthand))
   | "chords.builder", [str name, str root] => some (toVal (Chords.builderByName name root))
+  | "chords.determine", [list c, Val.bool sh, Val.bool ni, Val.bool np] =>
+      some (toVal (Chords.determine (strList c) sh ni np))
+  | "chords.both", [list c] =>
+      some (match Chords.determine (strList c) true false false, Chords.determine (strList c) false false false with
+        | .ok a, .ok b => .list [toVal a, toVal b]
+        | .error e, _ => .err e
+        | _, .error e => .err e)
   | "chords.tables", [] =>
       some (.list [toVal (Chords.chordShorthand.map (·.1)), toVal (Chords.chordMeaning.map (·.1))])
   | "chords.meaning", [str k] => some (toVal (Chords.chordMeaning.lookup k))
